@@ -118,6 +118,45 @@ Proof. exact C20.Proofs.no_trap_max_value_bitmap_len_u16. Qed.
 Theorem no_trap_checksum : forall l, compute_checksum l <> None.
 Proof. exact C20.Proofs.no_trap_checksum. Qed.
 
+(* ---- round 2: interpreter arithmetic instructions, CVT scaling, += / -=, phantom points, gvar interpolation ---- *)
+Theorem no_trap_op_add : forall a b, op_add a b <> None.
+Proof. exact C20.Proofs.no_trap_op_add. Qed.
+Theorem no_trap_op_sub : forall a b, op_sub a b <> None.
+Proof. exact C20.Proofs.no_trap_op_sub. Qed.
+Theorem no_trap_op_mul : forall a b, op_mul a b <> None.
+Proof. exact C20.Proofs.no_trap_op_mul. Qed.
+Theorem no_trap_op_div : forall a b, i32 a -> i32 b -> op_div a b <> None.
+Proof. exact C20.Proofs.no_trap_op_div. Qed.
+Theorem no_trap_op_abs : forall a, op_abs a <> None.
+Proof. exact C20.Proofs.no_trap_op_abs. Qed.
+Theorem no_trap_op_neg : forall a, op_neg a <> None.
+Proof. exact C20.Proofs.no_trap_op_neg. Qed.
+Theorem no_trap_op_floor_ceiling : forall a, op_floor a <> None /\ op_ceiling a <> None.
+Proof. exact C20.Proofs.no_trap_op_floor_ceiling. Qed.
+Theorem no_trap_op_max_min : forall a b, op_max a b <> None /\ op_min a b <> None.
+Proof. exact C20.Proofs.no_trap_op_max_min. Qed.
+Theorem no_trap_op_wcvtf : forall v scale, i32 v -> i32 scale -> op_wcvtf v scale <> None.
+Proof. exact C20.Proofs.no_trap_op_wcvtf. Qed.
+Theorem no_trap_compute_scale : forall ppem upem, 0 <= ppem <= 33554431 -> u16 upem -> compute_scale ppem upem <> None.
+Proof. exact C20.Proofs.no_trap_compute_scale. Qed.
+Theorem cvt_load_total : forall base, i16 base -> cvt_load base = Some (base * 64).
+Proof. exact no_trap_cvt_load. Qed.
+Theorem no_trap_cvt_load_cvar : forall base delta, i16 base -> cvt_load_cvar base delta <> None.
+Proof. exact C20.Proofs.no_trap_cvt_load_cvar. Qed.
+Theorem no_trap_cvt_scale : forall v scale, i32 v -> i32 scale -> cvt_scale v scale <> None.
+Proof. exact C20.Proofs.no_trap_cvt_scale. Qed.
+(* AddAssign / SubAssign of the fixed types go through the wrapping Add / Sub *)
+Theorem no_trap_add_sub_assign : forall bits a b, fx_add_assign bits a b <> None /\ fx_sub_assign bits a b <> None.
+Proof. exact no_trap_assign. Qed.
+Theorem no_trap_phantom_points : forall xmin ymax lsb adv ascent descent,
+  i16 xmin -> i16 ymax -> i16 lsb -> u16 adv -> i16 ascent -> i16 descent ->
+  phantom_points xmin ymax lsb adv ascent descent <> None.
+Proof. exact C20.Proofs.no_trap_phantom_points. Qed.
+Theorem no_trap_delta_interp : forall in1c in2c out1 out2 pc cur, delta_interp in1c in2c out1 out2 pc cur <> None.
+Proof. exact C20.Proofs.no_trap_delta_interp. Qed.
+Theorem no_trap_delta_shift : forall r o c, delta_shift r o c <> None.
+Proof. exact C20.Proofs.no_trap_delta_shift. Qed.
+
 Print Assumptions no_trap_floor.
 Print Assumptions no_trap_round.
 Print Assumptions no_trap_ceil.
@@ -158,3 +197,20 @@ Print Assumptions no_trap_transforms.
 Print Assumptions max_value_bitmap_len_no_trap_iff.
 Print Assumptions no_trap_max_value_bitmap_len_u16.
 Print Assumptions no_trap_checksum.
+Print Assumptions no_trap_op_add.
+Print Assumptions no_trap_op_sub.
+Print Assumptions no_trap_op_mul.
+Print Assumptions no_trap_op_div.
+Print Assumptions no_trap_op_abs.
+Print Assumptions no_trap_op_neg.
+Print Assumptions no_trap_op_floor_ceiling.
+Print Assumptions no_trap_op_max_min.
+Print Assumptions no_trap_op_wcvtf.
+Print Assumptions no_trap_compute_scale.
+Print Assumptions cvt_load_total.
+Print Assumptions no_trap_cvt_load_cvar.
+Print Assumptions no_trap_cvt_scale.
+Print Assumptions no_trap_add_sub_assign.
+Print Assumptions no_trap_phantom_points.
+Print Assumptions no_trap_delta_interp.
+Print Assumptions no_trap_delta_shift.
